@@ -153,9 +153,20 @@ def run(ctx):
     # ---- R08.2
     want = {("rtosc.c", "emplace_uint32"), ("rtosc.c", "emplace_uint64"), ("rtosc.c", "extract_uint32"), ("rtosc.c", "extract_uint64"),
             ("rtosc.c", "bundle_ring_length"), ("subtree-serialize.cpp", "emplace_uint32")}
+    # the time tag as the reader hands it out: rtosc_bundle_timetag evaluated as a whole on byte patterns behind the magic
+    try:
+        badt, npt = BO.eval_extractor(u, u.function("rtosc_bundle_timetag"), 8, offset=8)
+    except FD.Unknown as e:
+        raise AnalysisBroken("R08.2: rtosc_bundle_timetag is not evaluable on byte patterns: %s" % e)
+    ctx.ob("R08.2", "rtosc.c:rtosc_bundle_timetag evaluated", not badt, site=A.where(u.function("rtosc_bundle_timetag")), detail={"patterns": npt, "mismatches": badt[:4]},
+           key="R08.2:rtosc.c:rtosc_bundle_timetag:evaluated",
+           what="rtosc_bundle_timetag, evaluated on byte patterns, does not return the big-endian 64-bit value of bytes 8..15 (e.g. sign extension of a word whose top bit is set): %s" % badt[:2])
     for un, q in sorted(want):
         uu = ctx.ast(un)
-        fn = uu.function(q)
+        fn = uu.function(q, required=(q != "extract_uint64"))
+        if fn is None:
+            ctx.note("R08.2: %s:%s no longer exists; the 64-bit decode is decided on rtosc_bundle_timetag as a whole" % (un, q))
+            continue
         runs = BO.sequences(uu, fn)
         if not runs:
             # the decode may live in a helper of the unit that the function calls (e.g. a big-endian word reader)
